@@ -24,6 +24,30 @@ def step_{name}_reach(mask: int, n1: int, n2: int, rep: int) -> int:
     post: False
     """
     return len(step('{cls}', mask, n1, n2, rep))
+
+
+def repk_{name}(mask: int, n1: int, n2: int, rep: int, rk: int) -> int:
+    """
+    pre: {mlo} <= mask < {mhi}
+    pre: 0 <= n1 <= 1
+    pre: 0 <= n2 <= 1
+    pre: 0 <= rep <= {repmax}
+    pre: 1 <= rk <= {rkmax}
+    post: _ == 0
+    """
+    return len(step_dup('{cls}', mask, n1, n2, rep, rk))
+
+
+def repk_{name}_reach(mask: int, n1: int, n2: int, rep: int, rk: int) -> int:
+    """
+    pre: {mlo} <= mask < {mhi}
+    pre: 0 <= n1 <= 1
+    pre: 0 <= n2 <= 1
+    pre: 0 <= rep <= {repmax}
+    pre: 1 <= rk <= {rkmax}
+    post: False
+    """
+    return len(step_dup('{cls}', mask, n1, n2, rep, rk))
 '''
 
 
@@ -41,7 +65,7 @@ def gen(tier):
             chunks = [(i * 4, i * 4 + 4) for i in range(16)] if cls == 'Select' else [(0, 64)]
             for lo, hi in chunks:
                 name = cls if len(chunks) == 1 else '%s_m%d' % (cls, lo)
-                f.write(TEMPLATE.format(cls=cls, name=name, nmax=nmax, repmax=repmax, mlo=lo, mhi=hi))
+                f.write(TEMPLATE.format(cls=cls, name=name, nmax=nmax, repmax=repmax, mlo=lo, mhi=hi, rkmax=len(c13lib.REPL_KINDS) - 1))
                 names.append((name, cls))
     return path, names
 
@@ -50,7 +74,10 @@ def mk_replay(cls):
     def replay(args):
         from harness import c13lib
         try:
-            pr = c13lib.step(cls, args['mask'], args['n1'], args['n2'], args['rep']) + c13lib.step_dup(cls, args['mask'], args['n1'], args['n2'], args['rep'])
+            if 'rk' in args:
+                pr = c13lib.step_dup(cls, args['mask'], args['n1'], args['n2'], args['rep'], args['rk'])
+            else:
+                pr = c13lib.step(cls, args['mask'], args['n1'], args['n2'], args['rep']) + c13lib.step_dup(cls, args['mask'], args['n1'], args['n2'], args['rep'])
         except Exception as e:  # noqa
             pr = ['walker raised %r' % e]
         key = 'walker:%s:%s' % (cls, c13lib.classify(pr))
@@ -63,7 +90,7 @@ def run(tier):
     from harness import c13lib
     path, classes = gen(tier)
     run.bounds = {'list_length_max': 2 if tier == 'quick' else 3, 'optional_slots': 'all subsets (6-bit mask)',
-                  'replaced_index': 'none or any of the first 9/15 visited nodes', 'depth': 'one node kind per step; induction on depth gives all trees'}
+                  'replaced_index': 'none or any of the first 9/15 visited nodes', 'replacement_kinds': 'Identifier (all bounds); empty Tuple, Constant(0), NULL, Star, empty string, argument-less function (list lengths <= 1)', 'depth': 'one node kind per step; induction on depth gives all trees'}
     run.functions = ['mindsdb_sql.planner.utils.query_traversal', '<node>.to_string of every walked node class']
     run.assumptions = ['slot inventory (which attributes are child slots; table / target positions) is the table in harness/c13lib.py, cross-checked by reflection on vars(node)',
                        'loops over list slots are uniform: lengths beyond the bound are covered by the same loop body (stated, not proven)',
@@ -77,6 +104,7 @@ def run(tier):
     for u in unknown:
         run.ob('inventory:class:' + u, 'inconclusive', 'ASTNode subclass with node-valued constructor arguments, no builder')
     specs = [dict(fn='step_%s' % n, twin='step_%s_reach' % n, replay=mk_replay(c)) for n, c in classes]
+    specs += [dict(fn='repk_%s' % n, twin='repk_%s_reach' % n, replay=mk_replay(c)) for n, c in classes]
     ch_obligations(run, path, specs, cond_to=150 if tier == 'quick' else 900, path_to=30)
     run.extra['node_classes'] = sorted(set(c for n, c in classes))
     run.finish()
@@ -102,7 +130,7 @@ def unknown_classes():
 def replay(path):
     r = json.load(open(path))
     print(json.dumps(r, indent=1))
-    cls = r['replay']['harness'].replace('step_', '').split('_m')[0]
+    cls = r['replay']['harness'].replace('step_', '').replace('repk_', '').split('_m')[0]
     rep, info, key, what = mk_replay(cls)(r['replay']['args'])
     print('native replay now: reproduced=%s %s' % (rep, json.dumps(info, default=repr)))
     return 1 if rep else 0
